@@ -102,6 +102,15 @@ void WireMonitor::on_send(const Datagram &dg)
 		}
 	}
 	if (forwarding && !tunnel_name) return;
+	if (!c && !any) {
+		// nobody at this address asked with this id: if a query with exactly this question is waiting there under another id,
+		// the answer does not carry the id of the query it answers
+		for (auto it = credits.rbegin(); it != credits.rend(); ++it)
+			if (it->src == dg.dst && !it->answered && it->name == qn && it->qtype == m.q[0].type && it->id != m.id) {
+				v->fail("C10", "C10:id-echo", fmt("answer to %s for '%.50s' carries id %u, the waiting query with that question has id %u", dg.dst.str().c_str(), qn.c_str(), m.id, it->id));
+				break;
+			}
+	}
 	if (!c) {
 		if (any && !(any->name == qn && any->qtype == m.q[0].type))
 			v->fail("C10", "C10:echo", fmt("answer id %u to %s carries question '%.60s' type %u but the query was '%.60s' type %u", m.id, dg.dst.str().c_str(), qn.c_str(), m.q[0].type, any->name.c_str(), any->qtype));
@@ -125,6 +134,17 @@ void WireMonitor::on_send(const Datagram &dg)
 			std::string want = "ns." + qn.substr(dl);
 			if (refdns::lower(t) != refdns::lower(want)) v->fail("C10", "C10:ns-name", "NS answer names '" + t + "', expected '" + want + "'");
 			for (auto &a : m.additional) if (a.type == refdns::T_A && refdns::lower(a.owner.dotted()) != refdns::lower(want)) v->fail("C10", "C10:ns-glue", "additional A record is not owned by the NS name");
+		}
+	}
+	if (m.q[0].type == refdns::T_A && tunnel_name) {
+		int dl2 = ref::match_datalen(qn, domain);
+		std::string head = refdns::lower(qn.substr(0, dl2));
+		if (head == "ns." || head == "www.") {
+			n_aux++;
+			if (m.answers.size() != 1 || m.answers[0].type != refdns::T_A || m.answers[0].rdata.size() != 4)
+				v->fail("C10", "C10:a-record", "A query for " + head + "<domain> not answered with exactly one 4-byte address record");
+			else if (head == "www." && !(m.answers[0].rdata[0] == 127 && m.answers[0].rdata[1] == 0 && m.answers[0].rdata[2] == 0 && m.answers[0].rdata[3] == 1))
+				v->fail("C10", "C10:www-address", "A query for www.<domain> not answered with 127.0.0.1");
 		}
 	}
 	// C15 + C14 bookkeeping need the decoded payload
